@@ -10,7 +10,6 @@ Definition is_any_ackw (e : event) : bool := match e with EvAckWritten _ _ => tr
 Section C05.
   Variable P : params.
   Hypothesis KO : keys_ok P.
-  Hypothesis sha_nonempty : forall x, sha256 P x <> [].
 
   Local Notation slog s := (log (st_app s)).
 
@@ -249,6 +248,9 @@ Section C05.
       + apply (ko_ainj P KO) in E; [|exact Vt]. subst t. exfalso. apply Cp. apply C; assumption.
       + split; assumption.
   Qed.
+
+  (** sha256 never returns the empty string (bytes.Equal(nil, []) holds in AcknowledgePacket) *)
+  Hypothesis sha_nonempty : forall x, sha256 P x <> [].
 
   Lemma inv5_ack_keeper env s m s' :
     inv5 s -> ack_keeper P env s m = Ok s' -> inv5 s' /\ keeps (is_akey P) s s'.
